@@ -14,6 +14,37 @@ def check_hx(pid, tier, seed):
             binary = build("hx", leg["profile"], leg["features"], toolchain="nightly", rustflags_extra="-Zsanitizer=address", target_sub="asan", extra_args=("--target=x86_64-unknown-linux-gnu",))
         else:
             binary = build("hx", leg["profile"], leg["features"])
+        if leg["fam"] == "CYCLE":
+            # hook-free: 2^32-2 real create/destroy cycles on one position and on two alternating positions
+            outp = os.path.join(WORK, "out", "cycle.%d.json" % os.getpid())
+            os.makedirs(os.path.dirname(outp), exist_ok=True)
+            if os.path.exists(outp):
+                os.remove(outp)
+            rc, out, err = run([binary, "cycle", "--out", outp], timeout=7200)
+            if not os.path.exists(outp):
+                raise MachineryError("hx cycle died (rc=%s): %s" % (rc, (err or "")[-800:]))
+            o = json.load(open(outp))
+            st = o["stats"]
+            n = st["cycles_one_position"] + st["cycles_two_positions"]
+            agg["executions"] += 2
+            agg["transitions"] += 2 * n
+            agg["states"] += 2 * n
+            agg["counters"]["overflow_panics"] = agg["counters"].get("overflow_panics", 0) + len(st["overflow_messages"])
+            agg["legs"].append({"scenario": "2^32 cycles without hooks", "config": o["config"], "cycles_one_position": st["cycles_one_position"], "cycles_two_alternating_positions": st["cycles_two_positions"],
+                                "handles_checked_against_predecessor": st["handles_checked"], "boundary_state_equals_H2_preset": st["boundary_dump_equals_h2_preset"], "overflow_messages": st["overflow_messages"],
+                                "unique_states": 2 * n, "transitions": 2 * n, "capped": False, "wall_s": round(o["wall_s"], 1)})
+            agg["samples"].append({"scenario": "2^32 cycles without hooks", "history": "(Create, Destroy) x 4294967294 on one position, then Destroy must panic with 'slot version overflow'"})
+            for v in o["violations"]:
+                if v["prop"] == "HX":
+                    raise MachineryError("hook H2 does not reproduce the state a real history reaches: " + v["msg"])
+                rec = dict(v, scenario={"name": "cycle"}, config=o["config"], profile=leg["profile"], features=list(leg["features"]), history=None, engine="hx-cycle", extra={})
+                if counts is None or any(t in counts for t in v["prop"].split(",")):
+                    agg["violations"].append(rec)
+                else:
+                    key = "%s:%s" % (v["prop"], v["oracle"])
+                    agg["collateral"][key] = agg["collateral"].get(key, 0) + 1
+            log("%s cycle leg: %d cycles, %.0fs" % (pid, n, o["wall_s"]))
+            continue
         if leg["fam"] == "LIMIT":
             # S-H: the 2^24 limit, scripted fill + all operation suffixes up to a depth
             depth = leg["kw"].get("depth", 2)
@@ -54,6 +85,22 @@ def check_hx(pid, tier, seed):
             kw["narch"] = 32
         scenarios = fam(tier, **kw)
         config = "%s[%s]%s" % (leg["profile"], ",".join(leg["features"]), "+asan" if san else "")
+        if not san and "stateright_crosscheck" not in agg and scenarios:
+            # Independent explorer: stateright's BFS over the same model must report the same number of unique states and
+            # transitions as the level-synchronous BFS (reduced depth in the quick tier: stateright is effectively serial here).
+            sc0 = dict(scenarios[0])
+            sc0["props"] = leg["props"]
+            sc0["depth"] = max(2, sc0["depth"] - (3 if tier == "quick" else 2))
+            a = hxrun.run_leg(binary, sc0, config, dfs_check_depth=0, mode="pbfs")
+            b = hxrun.run_leg(binary, sc0, config, dfs_check_depth=0, mode="stateright", threads=4)
+            ka = (a["stats"]["unique_states"], a["stats"]["transitions"])
+            kb = (b["stats"]["unique_states"], b["stats"]["transitions"])
+            if not a["violations"] and not b["violations"] and not a["crashed"] and not b["crashed"]:
+                if ka != kb:
+                    raise MachineryError("explorer cross-check failed on %s depth %d: own BFS %s vs stateright %s (unique states, transitions)" % (sc0["name"], sc0["depth"], ka, kb))
+                agg["stateright_crosscheck"] = {"scenario": sc0["name"], "depth": sc0["depth"], "unique_states": ka[0], "transitions": ka[1], "agree": True, "stateright_wall_s": round(b["wall_s"], 2)}
+            else:
+                agg["stateright_crosscheck"] = {"scenario": sc0["name"], "skipped": "violations present"}
         for sc in scenarios:
             sc["props"] = leg["props"]
             limit = None if tier == "quick" else int(os.environ.get("VERIF_LEG_SECONDS", "1500"))
@@ -134,6 +181,7 @@ def finish(pid, tier, seed, level, agg, t0, extra_cov=None, assumptions=None):
                 "known_findings_hit": agg.get("known_hits", {}),
                 "other_property_oracles_failed": agg.get("collateral", {}),
                 "observations_not_replaying_deterministically": agg.get("unconfirmed", [])[:5],
+                "stateright_crosscheck": agg.get("stateright_crosscheck"),
                 "explanation": agg.get("explanation", "")})
     if extra_cov:
         cov.update(extra_cov)
@@ -175,6 +223,12 @@ def cmd_check(pid, tier):
 
 def cmd_replay(path):
     rp = json.load(open(path))
+    if rp.get("engine") == "hx-cycle":
+        binary = build("hx", rp["profile"], tuple(rp.get("features") or ()))
+        outp = os.path.join(WORK, "out", "cycle-replay.json")
+        rc, out, err = run([binary, "cycle", "--out", outp], timeout=7200)
+        print(open(outp).read() if os.path.exists(outp) else err)
+        return 1 if rc != 0 else 0
     if rp.get("engine") == "hx-limit":
         binary = build("hx", rp["profile"], tuple(rp.get("features") or ()))
         outp = os.path.join(WORK, "out", "limit-replay.json")
